@@ -19,3 +19,4 @@ import Tx3Proofs.C16Bool
 #print axioms Tx3.Json.C16_argument_overrides_env
 #print axioms Tx3.Json.C16_bool_only
 #print axioms Tx3.Json.C16_number_not_bool
+#print axioms Tx3.Json.C16_utxo_ref_index_fits
